@@ -35,6 +35,7 @@ pub fn gen_count_case(rng: &mut Rng, tier: &str, prop: &str) -> Case {
             mega_1_in: 0,
             twin_mega_1_in: 40000,
             many_1_in: 1500,
+            overflow_top_w: 1,
     };
     let records = g.gen(rng);
     let total: usize = records.iter().map(|r| r.seq.len()).sum();
